@@ -1,6 +1,7 @@
 SPECIFICATION Spec
 CONSTANTS
   H = {1, 2}
+  Val <- Val2
   Kind = "map"
   Sorted = FALSE
   Obs <- ObsEmit
